@@ -74,6 +74,22 @@ def cases(tier, rng, dist):
                "rand": rng.choice(["strata", "strata", "group"]), "g_other": [rng.choice([5, 6, 6]) for _ in range(n)], "aseed": rng.randint(0, 10**9)}
     for s in range(6 if tier == "quick" else 30):
         yield {"f": "repro", "seed": 100 + s, "strat": bool(s % 2)}
+    # TWO LIVE EXPERIMENTS used in alternation (own Randomizers and generators; the same label array object, the same test-function
+    # array and the same randomizer function may have gone into both): every call must return what it returns when its
+    # Experiment is used alone
+    for k in range(30 if tier == "quick" else 300):
+        n1, n2 = rng.randint(4, 7), rng.randint(3, 8)
+        if rng.random() < 0.3: n2 = n1
+        def lab(n):
+            gg = [0, 1] + [rng.randrange(2) for _ in range(n - 2)]; rng.shuffle(gg); return gg
+        ops = []
+        for _ in range(rng.randint(3, 7)):
+            ops.append({"on": rng.choice([1, 2]), "op": rng.choice(["randomize", "randomize", "sim_npc", "wy"]), "in_place": rng.random() < 0.6, "reps": rng.randint(1, 3)})
+        g1 = lab(n1)
+        yield {"f": "interleave", "g1": g1, "g2": (list(g1) if n2 == n1 and rng.random() < 0.5 else lab(n2)), "s1": [rng.randint(0, 1) for _ in range(n1)], "s2": [rng.randint(0, 2) for _ in range(n2)],
+               "strat1": rng.random() < 0.6, "strat2": rng.random() < 0.6, "r1": [[rng.randint(-3, 3), rng.randint(-3, 3)] for _ in range(n1)],
+               "r2": [[rng.randint(-3, 3), rng.randint(-3, 3)] for _ in range(n2)], "ops": ops, "share_labels": rng.random() < 0.5,
+               "a1": rng.randint(0, 10**9), "a2": rng.randint(0, 10**9)}
     # FAILURE PATHS: a call that is aborted in the middle of its repetition loop (a test function that raises an ordinary exception
     # or a non-Exception such as Ctrl-C), or that is handed an unusable seed, must leave the Experiment usable and, with
     # in_place=False, exactly as it was: same assignment, same Randomizer object, same generator object, not advanced
@@ -117,6 +133,50 @@ def mk_tests(spec):
     for name, idx in spec:
         out.append(Experiment.make_test_array(fns[name], [idx])[0])
     return out
+
+
+def run_interleave(c):
+    import random as _r
+    tests = mk_tests([["mean_diff", 0], ["mean_diff", 1]])          # ONE test array for both Experiments
+    def build(which, shared_labels=None):
+        g, st, resp, strat, a = (c["g1"], c["s1"], c["r1"], c["strat1"], c["a1"]) if which == 1 else (c["g2"], c["s2"], c["r2"], c["strat2"], c["a2"])
+        t = Tape(None, lazy(_r.Random(a), "random"))
+        R = Experiment.Randomizer(randomize=NPC.randomize_in_strata if strat else NPC.randomize_group, seed=t)
+        grp = shared_labels if shared_labels is not None else np.array(g)
+        return Experiment(group=grp, response=[list(r) for r in resp], covariate=[[v, 7] for v in st], randomizer=R)
+    def apply(e, op):
+        if op["op"] == "randomize":
+            r = guarded(lambda: [int(v) for v in e.randomize(in_place=op["in_place"]).group])
+        elif op["op"] == "sim_npc":
+            r = guarded(lambda: (lambda v: [float(v[0]), [float(x) for x in v[1]], [float(x) for x in v[2]]])(NPC.sim_npc(e, tests, combine="tippett", in_place=op["in_place"], reps=op["reps"])))
+        else:
+            r = guarded(lambda: (lambda v: [[float(x) for x in v[0]], [float(x) for x in v[1]]])(NPC.westfall_young(e, tests, in_place=op["in_place"], reps=op["reps"])))
+        return [list(r)[:2], [int(v) for v in e.group]]
+    shared = np.array(c["g1"]) if (c["share_labels"] and c["g1"] == c["g2"]) else None
+    ea, eb = build(1, shared), build(2, shared)
+    inter = [apply(ea if op["on"] == 1 else eb, op) for op in c["ops"]]
+    alone = {}
+    for which in (1, 2):
+        e = build(which)
+        alone[which] = [apply(e, op) for op in c["ops"] if op["on"] == which]
+    k = {1: 0, 2: 0}; al = []
+    for op in c["ops"]:
+        al.append(alone[op["on"]][k[op["on"]]]); k[op["on"]] += 1
+    return {"inter": inter, "alone": al, "shared_intact": (shared is None or shared.tolist() == list(c["g1"]))}
+
+
+def oracle_interleave(c, o):
+    from ..core_runs import same_result
+    for k, (a, b) in enumerate(zip(o["inter"], o["alone"])):
+        if not same_result(a, b):
+            _v = emit({"why": f"two Experiments used in alternation: call {k} ({c['ops'][k]}) returned / left {str(a)[:200]}, but {str(b)[:200]} when its Experiment is used alone (same data, same generator answers)", "cls": "experiment:irreproducible"})
+            if _v: return _v
+            _v = emit({"why": f"two Experiments used in alternation: call {k} ({c['ops'][k]}) differs from the same call on the Experiment alone: {str(a)[:160]} vs {str(b)[:160]}", "cls": "experiment:in-place-false-mutates"})
+            if _v: return _v
+    if not o["shared_intact"]:
+        _v = emit({"why": "the label array handed to both Experiments was modified", "cls": "experiment:response-changed"})
+        if _v: return _v
+    return None
 
 
 def run_failhist(c):
@@ -284,6 +344,8 @@ def run(c):
         return run_restrat(c)
     if f == "failhist":
         return run_failhist(c)
+    if f == "interleave":
+        return run_interleave(c)
     if f == "testfn":
         e = Experiment(group=labels_of(c), response=c["resp"])
         fn = {"mean_diff": Experiment.TestFunc.mean_diff, "ttest": Experiment.TestFunc.ttest, "anova": Experiment.TestFunc.one_way_anova}[c["fn"]]
@@ -490,6 +552,8 @@ def oracle(c, o):
     f = c["f"]
     if f == "failhist":
         return oracle_failhist(c, o)
+    if f == "interleave":
+        return oracle_interleave(c, o)
     if f == "restrat":
         return oracle_restrat(c, o)
     if f == "types":
@@ -675,6 +739,8 @@ def to_coq(c, o):
 def nontrivial(c, o):
     if c["f"] == "failhist":
         return o["failed"][0] == "exc"
+    if c["f"] == "interleave":
+        return len({op["on"] for op in c["ops"]}) == 2
     if c["f"] != "history":
         return c["f"] == "testfn" and o["r"][0] == "ok"
     ips = [op["in_place"] for op in c["ops"][:len(o["steps"])]]
